@@ -37,17 +37,47 @@ Theorem C20_lookup : forall cs lo hi q, c20_asc lo hi cs = true ->
 Proof. exact c2h_first_ge. Qed.
 Print Assumptions C20_lookup.
 
-(* Bitvector slice scan over an encoded mask: exactly the set positions, in order, with
-   payload handles 0, 1, 2, ... *)
-Theorem C20_scan_B : forall d cs, c20_asc 0 d cs = true ->
-  c20_bscan (c20_bits d cs) 0 0 (c20_len cs) = c20_enum 0 cs.
-Proof. exact bscan_mask. Qed.
+(* Slice scan of an encoded fiber through its own handle interface (setupSlice(0), nextInSlice
+   until None, handleToCoord, handleToPayload, payloadToValue at the leaf rank), element-wise.
+   c20_e_coord / c20_e_pay / c20_e_val project the three results per scanned element.
+   Uncompressed: every position 0 .. shape-1 in order, payload handle = position, value = the
+   stored payload of that position. *)
+Theorem C20_scan_U : forall e osf d, ef_fmt e = FU -> ef_shape e = d -> ef_npay e = d ->
+  (ef_leaf e = true -> c20_len (ef_vals e) = d) ->
+  map c20_e_coord (c20_scan e osf) = map Some (c20_range d)
+  /\ map c20_e_pay (c20_scan e osf) = map Some (c20_range d)
+  /\ (ef_leaf e = true -> map c20_e_val (c20_scan e osf) = map Some (ef_vals e)).
+Proof. exact scan_U. Qed.
+Print Assumptions C20_scan_U.
+
+(* CoordinateList: every stored coordinate in order; payload handle = position wherever the
+   fiber stores payload entries (leaf rank, or next rank C/B); value = stored payload *)
+Theorem C20_scan_C : forall e osf hi, ef_fmt e = FC -> c20_asc 0 hi (ef_coords e) = true ->
+  (ef_leaf e = true -> ef_npay e = c20_len (ef_coords e)
+                       /\ c20_len (ef_vals e) = c20_len (ef_coords e)) ->
+  map c20_e_coord (c20_scan e osf) = map Some (ef_coords e)
+  /\ (ef_leaf e || ef_nextup e = true ->
+      map c20_e_pay (c20_scan e osf) = map Some (c20_range (c20_len (ef_coords e))))
+  /\ (ef_leaf e = true -> map c20_e_val (c20_scan e osf) = map Some (ef_vals e)).
+Proof. exact scan_C. Qed.
+Print Assumptions C20_scan_C.
+
+(* Bitvector: exactly the set positions of the mask in order, payload handles 0, 1, 2, ...,
+   value = stored payload of that handle *)
+Theorem C20_scan_B : forall e osf d cs, ef_fmt e = FB -> c20_asc 0 d cs = true ->
+  ef_coords e = c20_bits d cs -> ef_npay e = c20_len cs ->
+  (ef_leaf e = true -> c20_len (ef_vals e) = c20_len cs) ->
+  map c20_e_coord (c20_scan e osf) = map Some cs
+  /\ map c20_e_pay (c20_scan e osf) = map Some (c20_range (c20_len cs))
+  /\ (ef_leaf e = true -> map c20_e_val (c20_scan e osf) = map Some (ef_vals e)).
+Proof. exact scan_B. Qed.
 Print Assumptions C20_scan_B.
 
-(* U / C slice scan: the handles from coordToHandle(0) = 0 are 0 .. max-1 *)
-Theorem C20_scan_handles : forall n, c20_handles (Some 0) n = c20_range n.
-Proof. exact handles_from_0. Qed.
-Print Assumptions C20_scan_handles.
+(* the mask walk itself *)
+Theorem C20_scan_B_mask : forall d cs, c20_asc 0 d cs = true ->
+  c20_bscan (c20_bits d cs) 0 0 (c20_len cs) = c20_enum 0 cs.
+Proof. exact bscan_mask. Qed.
+Print Assumptions C20_scan_B_mask.
 
 (* the mask decodes to the coordinates (used by the decoder and the scan oracle) *)
 Theorem C20_mask_positions : forall d cs, c20_asc 0 d cs = true ->
@@ -71,22 +101,22 @@ Theorem C20_size_interior : forall f g fs'' d ds t, 0 <= d ->
 Proof. exact size_int. Qed.
 Print Assumptions C20_size_interior.
 
-(* FULL STATEMENT (not proved in the time available):
-     forall c, c20_wf c = true -> holds c20_checker c (model c20_checker c) = true
-   i.e. c20_holds c (c20_model c) = true, where c20_holds = clause 1 (decode) && c20_levels_ok
-   (per-rank arrays = concatenation of the fibers' arrays; per fiber: scan, lookup, size).
-   Proved below: clause 1 for the model's arrays.  Missing: (a) reading back the V-encoded
-   observation (vzl (Vl VZ l) = l ...), (b) the invariant that every fiber object in
-   rk_fibers satisfies c20_fiber_ok — its ingredients are C20_lookup, C20_scan_B,
-   C20_scan_handles, C20_mask_positions, C20_size_leaf / C20_size_interior — and that the
-   rank arrays are the concatenation of the fibers' arrays (preserved by c20_oapp).
-   The run-time self-check (verdict bit 4) evaluates the full c20_holds on the model's
-   observation for every generated case. *)
-Theorem C20_model_meets_spec_partial : forall c, c20_wf c = true ->
-  let r := c20_root (q_desc c) (c20_dims c) (q_tree c) in
-  c20_holds_decode c (fst r) (c20_arrs (snd r)) = true.
-Proof. exact holds_decode_model. Qed.
-Print Assumptions C20_model_meets_spec_partial.
+(* Every rank of the encoder's output: coords_<r> / payloads_<r> are the concatenation, in
+   order, of the arrays of the fiber objects of that level, and every fiber object satisfies
+   the per-fiber oracle (scan, lookup, size) for every query list and occupancy_so_far *)
+Theorem C20_arrays_are_fibers : forall fs ds t,
+  length ds = length fs -> forallb (Z.leb 0) ds = true -> c20_wf_tree ds t = true ->
+  c20_out_inv fs ds (fst (c20_enc fs ds t)).
+Proof. exact enc_inv. Qed.
+Print Assumptions C20_arrays_are_fibers.
+
+(* the faithful model's observation meets the whole property oracle (decode by layout, rank
+   arrays = concatenation of fiber arrays, per-fiber scan / lookup / size) for every
+   well-formed case *)
+Theorem C20_model_meets_spec : forall c, c20_wf c = true ->
+  holds c20_checker c (model c20_checker c) = true.
+Proof. exact c20_model_holds. Qed.
+Print Assumptions C20_model_meets_spec.
 
 (* non-vacuity: a 3-rank tensor with an explicit zero, an empty sub-fiber and an absent
    coordinate, descriptor B-U-C under an imposed shape, is well-formed and its model
